@@ -122,4 +122,11 @@ void vp_br_remove(unsigned long idxbits) { removeBackRef(bits_idx(idxbits)); }
 void* vp_br_get(unsigned long idxbits) { return getBackRef(bits_idx(idxbits)); }
 void vp_br_set(unsigned long idxbits, void* p) { setBackRef(bits_idx(idxbits), p); }
 int vp_br_init(void* backend) { return initBackRefMain((Backend*)backend); }
+
+// ---- Backend::splitBlock arithmetic (backend.cpp)
+void* vp_split(void* pool, void* fBlock, int num, unsigned long size, int blockIsAligned, int needAligned) {
+  return ((MemoryPool*)pool)->extMemPool.backend.splitBlock((FreeBlock*)fBlock, num, size, blockIsAligned, needAligned);
+}
+void vp_fb_set_sizetmp(void* fb, unsigned long sz) { ((FreeBlock*)fb)->sizeTmp = sz; }
+unsigned long vp_fb_min() { return FreeBlock::minBlockSize; }
 }
